@@ -202,7 +202,13 @@ class MHLHistory:
     def renamed_path_with_previous_path(self):
         all_paths = {}
         for hash_list in self.hash_lists:
-            all_paths.update(hash_list.renamed_path_with_previous_path(self.get_root_path()))
+            renamed_paths = hash_list.renamed_path_with_previous_path(self.get_root_path())
+            # a path that has been renamed in an earlier generation follows later renames of its new name,
+            # so all former names of a file lead to its current name
+            for previous_path, path in all_paths.items():
+                if path in renamed_paths:
+                    all_paths[previous_path] = renamed_paths[path]
+            all_paths.update(renamed_paths)
         for child_history in self.child_histories:
             all_paths.update(child_history.renamed_path_with_previous_path())
         return all_paths
